@@ -384,6 +384,16 @@ func (fs *fsMutable) Rename(ctx context.Context, op *fuseops.RenameOp) (err erro
 	fs.insertReadDirEntry(op.NewParent, &newRC)
 	fs.insertLookupEntry(op.NewParent, op.NewName, l.(lookupEntry))
 
+	if rC.Type == fuseutil.DT_Directory && op.OldParent != op.NewParent {
+		// The ".." link of a moved directory now counts for its new parent.
+		if o, found := fs.iNodeStore.Get(formKey(op.OldParent)); found {
+			o.(*nodeEntry).attr.Nlink--
+		}
+		if n, found := fs.iNodeStore.Get(formKey(op.NewParent)); found {
+			n.(*nodeEntry).attr.Nlink++
+		}
+	}
+
 	return nil
 }
 
